@@ -167,7 +167,7 @@ theorem C18_bytes_units :
   decide +kernel
 
 /-- A string that denotes nothing (unknown unit, malformed number), a non-whole or a negative number of bytes is
-rejected. -/
+rejected (with one of the error kinds format / nonInteger / negative / index / range). -/
 theorem C18_bytes_rejects (s : List Char)
     (h : denote s = none ∨ ∃ q, denote s = some q ∧ (q.den ≠ 1 ∨ q < 0)) :
     ∃ e, convertStr s = .error e := by
@@ -220,11 +220,60 @@ theorem C18_spec_mem_exact (a r : List Char) (am rm : Nat) (hr : r ≠ [])
 
 example : Spec.memInit (some "2GB".toList) (some "100 MB".toList) = .ok (2000000000, 100000000) := by decide +kernel
 
-/-- The statements of `convert_to_bytes` the model mirrors are all present (exact rational arithmetic, not float). -/
+/-- The new rejection, exactly as coded: a non-zero literal that `Decimal` can represent and whose most significant
+digit lies more than `adjustedBound` places from the units digit (`abs(decimal_value.adjusted()) > 1000`) is rejected
+with "Exponent is out of range" — before any power of ten is computed. -/
+theorem C18_bytes_range_rejected (s value : List Char) (factor : Nat) (l : Lit)
+    (hs : splitValueUnit (stripSpaces s) = .ok (value, factor)) (hl : lexNumber value = some (.finite l))
+    (hok : decimalOk l = true) (hnz : coeffDigits l ≠ [])
+    (hr : (GeneratedC18.adjustedBound : Int) < l.adjusted.natAbs) :
+    convertStr s = .error .range := by
+  unfold convertStr
+  simp only [hs, hl]
+  exact litToBytes_range l factor hok hnz hr
+
+/-- … and only such literals are: zero is exempt whatever its exponent. -/
+theorem C18_bytes_range_only (s : List Char) (h : convertStr s = .error .range) :
+    ∃ value factor l, splitValueUnit (stripSpaces s) = .ok (value, factor) ∧ lexNumber value = some (.finite l) ∧
+      coeffDigits l ≠ [] ∧ (GeneratedC18.adjustedBound : Int) < l.adjusted.natAbs := by
+  unfold convertStr at h
+  split at h
+  · next e he =>
+    injection h with h; subst h
+    unfold splitValueUnit at he
+    split at he
+    · cases he
+    · split at he
+      · cases he
+      · split at he
+        · cases he
+        · split at he
+          · split at he <;> cases he
+          · cases he
+  · next value factor hs =>
+    split at h
+    · next l hl => exact ⟨value, factor, l, hs, hl, litToBytes_range_only l factor h⟩
+    · cases h
+
+example : convertStr "1e1000".toList = .ok (10 ^ 1000) := by decide +kernel
+example : convertStr "0.1e1001".toList = .ok (10 ^ 1000) := by decide +kernel
+example : convertStr "9.99e1000".toList = .ok (999 * 10 ^ 998) := by decide +kernel
+example : convertStr "1e1001".toList = .error .range := by decide +kernel
+example : convertStr "10e1000".toList = .error .range := by decide +kernel
+example : convertStr "0.1e1002".toList = .error .range := by decide +kernel
+example : convertStr "1e-1000".toList = .error .nonInteger := by decide +kernel
+example : convertStr "1e-1001".toList = .error .range := by decide +kernel
+example : convertStr "1e999999999 kB".toList = .error .range := by decide +kernel
+example : convertStr "0e999999999".toList = .ok 0 := by decide +kernel
+example : convertStr "1e1000000000000000000".toList = .error .nonInteger := by decide +kernel   -- Decimal: InvalidOperation
+
+/-- The statements of `convert_to_bytes` the model mirrors are all present, in the modelled order (exact rational
+arithmetic on a `Decimal`, not float; the exponent range test precedes the conversion), and the bound is 1000. -/
 theorem C18_bytes_steps :
     GeneratedC18.bytesSteps =
-      [ "strip-spaces", "numeric-test-float", "plain", "suffix-B", "suffix-unit", "exact-rational", "whole-test"
-      , "to-int", "float-whole", "nonneg", "plain-factor:1" ] := by
+      [ "strip-spaces", "numeric-test-float", "plain", "suffix-B", "suffix-unit", "decimal-parse", "finite-test"
+      , "exact-rational", "whole-test", "to-int", "float-whole", "nonneg", "range-test", "order-ok", "plain-factor:1" ] ∧
+    GeneratedC18.adjustedBound = 1000 := by
   decide
 
 end Cubed.C18
